@@ -353,7 +353,7 @@ fn run_unloaded(addrs: &str, mods: &str) -> String {
 
 /// E c1:m1+m2,c2:m1 m1,m2,m3 : evil-json ModuleSignatureInfo {c1:[m1.dll,m2.dll],c2:[m1.dll]} and a dump
 /// with modules C:\x\m1.dll ...; answer: cert_subject of each module as print_json reports it
-fn run_certs(spec_s: &str, mods: &str) -> String {
+fn run_certs(spec_s: &str, mods: &str, as_object: bool) -> String {
     // the inner object is written by hand, member by member in the order of the case, so that a certificate name can occur
     // twice (serde's HashMap visitor then keeps the LAST member of that name: C13/Unloaded.hm_of_members)
     let members: Vec<String> = spec_s
@@ -364,7 +364,9 @@ fn run_certs(spec_s: &str, mods: &str) -> String {
         })
         .collect();
     let inner = format!("{{{}}}", members.join(","));
-    let evil = serde_json::json!({ "ModuleSignatureInfo": inner }).to_string();
+    // evil_obj accepts the table as a string that holds JSON (what crash reporters write) or as a JSON object; in the second
+    // form serde_json's own Map resolves a repeated name first (last member wins as well)
+    let evil = if as_object { format!("{{\"ModuleSignatureInfo\":{}}}", inner) } else { serde_json::json!({ "ModuleSignatureInfo": inner }).to_string() };
     let mut f = tempfile::NamedTempFile::new().expect("tmp");
     std::io::Write::write_all(&mut f, evil.as_bytes()).unwrap();
     let mut spec = Spec { cpu: "x86".into(), os: "win".into(), ..Default::default() };
@@ -668,7 +670,8 @@ fn run(line: &str) -> String {
     }
     if let Some(rest) = line.strip_prefix("E ") {
         let mut it = rest.split_ascii_whitespace();
-        return run_certs(it.next().expect("certs"), it.next().expect("mods"));
+        let (c, m) = (it.next().expect("certs"), it.next().expect("mods"));
+        return run_certs(c, m, it.next() == Some("obj"));
     }
     let mut spec = parse_spec(line.split_ascii_whitespace());
     if let Some(d) = spec.extra.get("deep").cloned() {
